@@ -120,27 +120,47 @@ def error_mapping(run, f, sp, durations):
         b = site.body
         fnname = site.root.split("::")[-1]
         ctx = sp.failure_context(site)
-        ok_ctx = bool(ctx) and ctx[0] == "map_err" and ctx[1] == "timeout" and (ctx[-1][0].name, ctx[2]) in tsites
-        if not run.require(ok_ctx, "O10.2", "timeout-error-context:%s" % fnname,
-                           "Error::Timeout in %s is not constructed in a map_err closure on the awaited tokio timeout (%s)" % (fnname, ctx[:2] if ctx else None),
-                           "constructed in the map_err closure of the awaited timeout", loc=site.loc):
+        form_a = bool(ctx) and ctx[0] == "map_err" and ctx[1] == "timeout" and (ctx[-1][0].name, ctx[2]) in tsites
+        # form B: `match timeout(..).await { Ok(inner) => inner, Err(_) => Err(Error::Timeout{..}) }` - the same mapping written as a match
+        form_b = bool(ctx) and ctx[0] == "guard" and ctx[1] == "timeout" and (b.name, ctx[2]) in tsites
+        if not run.require(form_a or form_b, "O10.2", "timeout-error-context:%s" % fnname,
+                           "Error::Timeout in %s is not constructed under the Elapsed outcome of the awaited tokio timeout (%s)" % (fnname, ctx[:2] if ctx else None),
+                           "constructed under the Elapsed outcome of the awaited timeout (%s)" % ("map_err closure" if form_a else "Err arm of a match"), loc=site.loc):
             continue
-        p2 = b.local_ty(2) if b.arg_count >= 2 else None
-        run.require(p2 is not None and p2.is_adt("tokio::time::error::Elapsed"), "O10.2", "closure-takes-elapsed:%s" % fnname,
-                    "the closure's parameter is %s, not tokio's Elapsed" % p2, "closure parameter: Elapsed", loc=site.loc)
+        if form_a:
+            p2 = b.local_ty(2) if b.arg_count >= 2 else None
+            run.require(p2 is not None and p2.is_adt("tokio::time::error::Elapsed"), "O10.2", "closure-takes-elapsed:%s" % fnname,
+                        "the closure's parameter is %s, not tokio's Elapsed" % p2, "closure parameter: Elapsed", loc=site.loc)
+        else:
+            run.ok("O10.2", "closure-takes-elapsed:%s" % fnname, "Err arm of the match on the timeout's Result<_, Elapsed>", loc=site.loc)
         tv = sp.resolve_to_root_param(b, flds.get("timeout"))
         run.require(tv[0] == "param" and durations.get(site.root) == tv[2], "O10.2", "timeout-field:%s" % fnname,
                     "Error::Timeout.timeout is %s, not the deadline parameter" % (show(tv) if isinstance(tv, tuple) else tv), "timeout field == the deadline parameter", loc=site.loc)
-        # the inner result passes through `?` unchanged
-        par, cbb = ctx[-1]
-        ptr = tracer_of(par)
-        ret = norm_try(ptr, ptr.local(0))
-        members = set(ret[1]) if ret[0] == "phi" else {ret}
-        C = {m for m in members if m[0] in ("try_err", "try_ok") and strip_wrappers(m[1])[:2] == ("call", cbb)}
-        kinds = {m[0] for m in C}
-        run.require(members == C and kinds == {"try_err", "try_ok"}, "O10.2", "inner-result-unchanged:%s" % fnname,
-                    "the result of %s is not `timeout(..).await.map_err(..)?` returned unchanged: %s" % (fnname, show(ret)),
-                    "returns Err(Timeout) on Elapsed, otherwise the inner Result unchanged", loc=loc_of(par, cbb))
+        if form_a:
+            # the inner result passes through `?` unchanged
+            par, cbb = ctx[-1]
+            ptr = tracer_of(par)
+            ret = norm_try(ptr, ptr.local(0))
+            members = set(ret[1]) if ret[0] == "phi" else {ret}
+            C = {m for m in members if m[0] in ("try_err", "try_ok") and strip_wrappers(m[1])[:2] == ("call", cbb)}
+            kinds = {m[0] for m in C}
+            run.require(members == C and kinds == {"try_err", "try_ok"}, "O10.2", "inner-result-unchanged:%s" % fnname,
+                        "the result of %s is not `timeout(..).await.map_err(..)?` returned unchanged: %s" % (fnname, show(ret)),
+                        "returns Err(Timeout) on Elapsed, otherwise the inner Result unchanged", loc=loc_of(par, cbb))
+        else:
+            btr = tracer_of(b)
+            ret = btr.norm(btr.local(0))
+            members = set(ret[1]) if ret[0] == "phi" else {ret}
+            this_err = btr.norm(btr.rvalue(st["rv"]))
+            good = len(members) == 2
+            for m in members:
+                m = strip_wrappers(m)
+                is_err = m[0] == "agg" and m[1][:3] == ("adt", "std::result::Result", "Err") and strip_wrappers(m[2][0]) == this_err
+                is_inner = m[0] == "field" and m[1] == 0 and m[2][0] == "downcast" and m[2][1] == "Ok" and m[2][2][0] == "await" and strip_wrappers(m[2][2][1])[:2] == ("call", ctx[2])
+                good = good and (is_err or is_inner)
+            run.require(good, "O10.2", "inner-result-unchanged:%s" % fnname,
+                        "the result of %s is not {Elapsed => Err(Timeout), Ok(inner) => inner unchanged}: %s" % (fnname, show(ret)),
+                        "returns Err(Timeout) on Elapsed, otherwise the inner Result unchanged", loc=site.loc)
     run.require(n >= 4, "O10.2", "timeout-error-floor", "only %d Error::Timeout constructions found" % n, "%d Error::Timeout constructions, all in Elapsed closures" % n)
 
 
